@@ -50,8 +50,9 @@ F_FAIL = lambda i: 13 * i + 5   # noqa: E731
 
 
 def _mk(ids, parallel, max_tasks, raising=(), tolerate=True, mode="irun", dur=None, consumer=None, delay=None,
-        src="grid", unit=0.01, get_timeout=0.03, timeout=10):
+        src="grid", unit=0.01, get_timeout=0.03, timeout=10, unpicklable=()):
     return {"ids": list(ids), "parallel": parallel, "max_tasks": max_tasks, "raising": sorted(raising),
+            "unpicklable": sorted(set(unpicklable) & set(raising)),
             "tolerate": tolerate, "mode": mode, "dur": dur or {}, "consumer": consumer or {},
             "sched": {"get_timeout": get_timeout, "delay": delay or {}}, "timeout": timeout, "src": src}
 
@@ -77,6 +78,10 @@ def adversarial(scaled: bool) -> list[dict]:
             out.append(c)
         return out
     out = [refuting_schedule(True)]
+    # failing tasks that return something the done queue cannot carry instead of raising
+    for (n, p, m) in [(4, 2, 25), (6, 3, 2), (8, 4, 1)]:
+        out.append(_mk(range(n), p, m, raising=[1, n - 1], unpicklable=[1, n - 1], dur={"default": 0.005},
+                       src="unpicklable-result"))
     # consumer slow at various positions, with and without retirement, with failures
     for (n, p, m, k, rs) in [(2, 2, 25, 0, []), (3, 2, 1, 0, []), (5, 2, 2, 1, [3]), (8, 3, 2, 0, [0, 7]),
                              (8, 8, 25, 0, []), (12, 4, 3, 2, [5]), (6, 3, 1, 0, []), (16, 5, 4, 3, []),
@@ -163,8 +168,10 @@ def random_grid(ctx, count: int) -> list[dict]:
         elif r < 0.4:
             delay["get"] = 0.01
         mode = "run" if (rng.random() < 0.12 and not cons and tol) else "irun"
+        # some failing tasks do not raise but return something the done queue cannot carry
+        unp = [i for i in raising if rng.random() < 0.5] if rng.random() < 0.3 else []
         out.append(_mk(ids, p, m, raising=raising, tolerate=tol, mode=mode, dur=dur, consumer=cons, delay=delay,
-                       src="grid", get_timeout=rng.choice([0.02, 0.03, 0.05])))
+                       src="grid", get_timeout=rng.choice([0.02, 0.03, 0.05]), unpicklable=unp))
     return out
 
 
@@ -648,7 +655,7 @@ def run(ctx):
                                          replay={"skipped": skipped}))
 
     def key(c):
-        return core.canon_hash({k: c[k] for k in ("ids", "parallel", "max_tasks", "raising", "tolerate", "mode",
+        return core.canon_hash({k: c.get(k) for k in ("ids", "parallel", "max_tasks", "raising", "unpicklable", "tolerate", "mode",
                                                   "dur", "consumer", "sched")})
 
     seen, nontrivial = set(), 0
@@ -702,7 +709,7 @@ def replay(ctx, doc):
     c = doc["replay"]["case"]
     case = _mk(c["ids"], c["parallel"], c["max_tasks"], raising=c.get("raising", ()), tolerate=c.get("tolerate", True),
                mode=c.get("mode", "irun"), dur=c.get("dur"), consumer=c.get("consumer"), src=c.get("src", "replay"),
-               timeout=c.get("timeout", 40))
+               timeout=c.get("timeout", 40), unpicklable=c.get("unpicklable", ()))
     case["sched"] = c.get("sched", {})
     out = core.run_impl("c12_runner.py", [case], timeout=300)[0]
     from ..translators import tr_parallel
